@@ -1273,7 +1273,7 @@ func Checks() map[string]*simcore.Check {
 				Real: []string{"core/rawdb: Open, freezerdb, chainFreezer.freeze/freezeRange/freezeThreshold, Freezer and tables (recompiled with os.* -> simos.*), all Read*/Write*/Delete* chain accessors, ReadAllHashes, tx lookup accessors", "ethdb/memorydb under SimKV", "core/types block, body, receipt encoding"},
 				Stub: []string{"key-value store = simdisk.SimKV (memorydb + op log, batch = one atomic unit)", "file system calls pass through simos to tmpfs and are recorded; fsync modelled", "flock is an in-process table", "era store directory is absent"}},
 			Perturbed: []string{"order in which the freezer walks its table map (Go map order) decides how file events of different tables interleave; not seedable, so the set of events before a given cut can differ between executions of one plan (replay falls back to all cuts)"},
-			Runs:      map[string]int{"quick": 480, "thorough": 12000},
+			Runs:      map[string]int{"quick": 240, "thorough": 12000},
 			Gen:       gen, Decode: decode, Run: run, Shrink: shrink,
 			ProbeNames: []string{"freeze-advanced", "freeze-noop", "reorg", "fork-from-canonical", "crash-before-copy-visible", "crash-after-copy",
 				"side-chain-removal-expected", "dangling-descendants-expected", "side-above-boundary-kept", "canonical-kv-copy-left-after-crash"},
